@@ -89,6 +89,23 @@ fn load_dir(root: &Path, dir: &Path, out: &mut BTreeMap<String, ZoneFile>) {
 }
 
 impl Image {
+    /// Only the named zones (used under Miri, where reading 900 files through
+    /// the interpreter would take minutes).
+    pub fn load_subset(ids: &[&str]) -> Image {
+        let root = Path::new(ZONEINFO);
+        let mut files = BTreeMap::new();
+        for id in ids {
+            if let Ok(bytes) = std::fs::read(root.join(id)) {
+                let (transitions, footer_at, is_tzif) = match scan_tzif(&bytes) {
+                    Some((t, f)) => (t, f, true),
+                    None => (Vec::new(), bytes.len(), false),
+                };
+                files.insert(id.to_string(), ZoneFile { bytes: Arc::new(bytes), transitions, footer_at, is_tzif });
+            }
+        }
+        let zones = files.keys().cloned().collect();
+        Image { files, zones }
+    }
     pub fn load() -> Image {
         let root = Path::new(ZONEINFO);
         let mut files = BTreeMap::new();
